@@ -223,7 +223,8 @@ AbsCase(k) == [ entry |-> k.entry, rp |-> k.rp, nth |-> k.nth, defective |-> k.d
 Sig(d)     == << Unhashable(d), Bottomless(d), Lazy(d), d[1] \in ComboKinds >>
 RepDefects == { CHOOSE d \in OnDefects : Sig(d) = g : g \in { Sig(d) : d \in OnDefects } }
 InitCases  == TLCEval(IF Abstract THEN CasesOver(RepDefects, { "root" }) ELSE Cases)
-ASSUME RepsCover == { AbsCase(k) : k \in InitCases } = { AbsCase(k) : k \in Cases }
+\* every defect has a representative with the same attributes (positions and slots are not looked at)
+ASSUME RepsCover == \A d \in OnDefects : \E r \in RepDefects : Sig(r) = Sig(d)
 
 VARIABLES c,        \* the case (fixed along a behaviour)
           pc,       \* control point
@@ -244,6 +245,7 @@ CallHintL  == TLCEval(Rep(PublicDesc("BeartypeCallHintException")))
 DoorL      == TLCEval(Rep(PublicDesc("BeartypeDoorException")))
 FwdCallL   == TLCEval(Rep(PublicDesc("BeartypeCallHintForwardRefException")))
 FwdDecorL  == TLCEval(Rep(PublicDesc("BeartypeDecorHintForwardRefException")))
+ViolL      == TLCEval(Rep(PublicDesc("BeartypeCallHintViolation") \ { "BeartypeDoorHintViolation" }))
 WarnL      == TLCEval(Rep(PublicDesc(WarnTop)))
 Layer(ph)  == CASE ph = "decor" -> DecorHintL
                 [] ph = "call"  -> CallHintL
@@ -263,7 +265,7 @@ Call ==
   /\ obs' = ObsEnter(obs, "call") /\ pc' = "argcheck" /\ calls' = calls + 1
   /\ UNCHANGED << c, flight, reach >>
 DoorCheck ==
-  /\ \/ pc = "idle" /\ calls = 0 /\ c.entry \in { "is_bearable", "die_if_unbearable" }
+  /\ \/ pc = "idle" /\ calls < MaxCalls /\ c.entry \in { "is_bearable", "die_if_unbearable" }
      \/ pc = "wrapped" /\ c.entry = "TypeHint" /\ calls < MaxCalls
   /\ obs' = ObsEnter(obs, "door") /\ pc' = "memo" /\ calls' = calls + 1
   /\ UNCHANGED << c, flight, reach >>
@@ -298,7 +300,7 @@ CodeGen ==
         /\ c.rp \in { "instancecheck", "subclasscheck" } /\ reach + 1 >= c.nth
         /\ reach' = Bump /\ obs' = ObsUserRaise(obs, 1, FALSE)
         /\ \/ Throw(UserExc(1, TRUE))                                   \* "sufficient": re-raised as is
-           \/ Throw(Exc("BeartypeDecorHintPep3119Exception"))           \* raise exception_cls(...) from it
+           \/ \E k \in Layer(obs.phase) : Throw(Exc(k))                  \* raise exception_cls(...) from it
 
 Warn ==             \* warnings recorded during code generation are played back (checkmake)
   /\ pc = "codegen" /\ obs.nwarn < 2 /\ UNCHANGED << c, pc, flight, reach, calls >>
@@ -311,13 +313,15 @@ Unwind ==           \* except Exception as exception: reraise_exception_placehol
                ELSE flight                \* raise exception.with_traceback(exception.__traceback__)
 
 (* ---- the generated wrapper / checker: no handler between user code and the caller --- *)
-UserPoint(next) ==
-  \/ c.rp \in CheckRPs /\ reach + 1 < c.nth /\ reach' = Bump /\ pc' = next /\ UNCHANGED << obs, flight >>
-  \/ /\ c.rp \in CheckRPs /\ reach + 1 >= c.nth /\ reach' = Bump
-     /\ obs' = ObsUserRaise(obs, 1, TRUE) /\ flight' = UserExc(1, TRUE) /\ pc' = "escape"
+Quiet ==            \* the user's hook is reached but does not raise yet (it raises from the nth reach on)
+  /\ obs.phase # "idle" /\ c.rp \in CheckRPs /\ reach + 1 < c.nth
+  /\ reach' = Bump /\ UNCHANGED << c, pc, obs, flight, calls >>
+UserPoint ==
+  /\ c.rp \in CheckRPs /\ reach + 1 >= c.nth /\ reach' = Bump
+  /\ obs' = ObsUserRaise(obs, 1, TRUE) /\ flight' = UserExc(1, TRUE) /\ pc' = "escape"
 ArgCheck ==
   /\ pc = "argcheck" /\ UNCHANGED << c, calls >>
-  /\ \/ UserPoint("argcheck2")
+  /\ \/ UserPoint
      \/ pc' = "argcheck2" /\ UNCHANGED << obs, flight, reach >>
 ArgCheck2 ==
   /\ pc = "argcheck2" /\ UNCHANGED << c, calls, obs, reach >>
@@ -340,17 +344,22 @@ Report ==           \* get_func_pith_violation / get_hint_object_violation re-wa
         /\ IF c.entry = "is_bearable" \/ (c.entry = "TypeHint")
            THEN pc' = "return_ok" /\ UNCHANGED flight                     \* the tester just says False
            ELSE /\ pc' = "escape"
-                /\ flight' = Exc(IF obs.phase = "call" THEN "BeartypeCallHintParamViolation"
-                                 ELSE "BeartypeDoorHintViolation")
+                /\ \E k \in (IF obs.phase = "call" THEN ViolL ELSE { "BeartypeDoorHintViolation" }) :
+                      flight' = Exc(k)
 
 (* ---- beartype.door.TypeHint and is_subhint ------------------------------------------ *)
 Wrap ==             \* TypeHint.__new__ (doormeta): die_unless_hint(exception_cls = Door...), wrapper cache
-  /\ pc = "wrap" /\ Stay /\ UNCHANGED << obs >>
-  /\ \/ pc' = (IF c.entry = "is_subhint" THEN "compare" ELSE "return_ok") /\ UNCHANGED flight
-     \/ Defective /\ pc' = "escape" /\ \E k \in DoorL : flight' = Exc(k)
-     \/ Defective /\ pc' = "escape" /\ flight' = Exc("BeartypeDecorHintPepException")
-     \/ /\ Defective /\ Unhashable(c.defect) /\ "unguarded_hash" \in Legacy
+  /\ pc = "wrap" /\ UNCHANGED << c, calls >>
+  /\ \/ /\ pc' = (IF c.entry = "is_subhint" THEN "compare" ELSE "return_ok")
+        /\ UNCHANGED << flight, obs, reach >>
+     \/ Defective /\ pc' = "escape" /\ UNCHANGED << obs, reach >> /\ \E k \in Layer("hint") : flight' = Exc(k)
+     \/ /\ Defective /\ Unhashable(c.defect) /\ "unguarded_hash" \in Legacy /\ UNCHANGED << obs, reach >>
         /\ pc' = "escape" /\ flight' = Exc("py:TypeError")
+     \/ \* children are sanified when wrapped: the same isinstance() probes as CodeGen
+        /\ c.rp \in { "instancecheck", "subclasscheck" } /\ reach + 1 >= c.nth
+        /\ reach' = Bump /\ obs' = ObsUserRaise(obs, 1, FALSE) /\ pc' = "escape"
+        /\ \/ flight' = UserExc(1, TRUE)
+           \/ \E k \in Layer("hint") : flight' = Exc(k)
 Compare ==          \* TypeHint.is_subhint -> issubclass() on the wrapped classes: user hook, no handler
   /\ pc = "compare" /\ UNCHANGED << c, calls >>
   /\ \/ pc' = "return_ok" /\ UNCHANGED << obs, flight, reach >>
@@ -363,7 +372,7 @@ After == CASE obs.phase = "decor" -> "decorated"
           [] obs.phase = "hint" -> "idle"
           [] obs.phase = "call" -> "decorated"
           [] obs.phase = "door" /\ c.entry = "TypeHint" -> "wrapped"
-          [] OTHER -> "done"
+          [] OTHER -> "idle"
 ReturnOk ==
   /\ pc = "return_ok" /\ obs' = ObsReturn(obs, OkOut) /\ pc' = After
   /\ UNCHANGED << c, flight, reach, calls >>
@@ -374,7 +383,7 @@ Escape ==
 
 Next == \/ Decorate \/ Call \/ DoorCheck \/ MakeTypeHint \/ IsSubhint
         \/ MemoProbe \/ Sanify \/ CodeGen \/ Warn \/ Unwind
-        \/ ArgCheck \/ ArgCheck2 \/ Body \/ Report \/ Wrap \/ Compare
+        \/ Quiet \/ ArgCheck \/ ArgCheck2 \/ Body \/ Report \/ Wrap \/ Compare
         \/ ReturnOk \/ Escape
 Spec == Init /\ [][Next]_vars
 
@@ -395,5 +404,7 @@ TypeOK == /\ obs.out.kind \in { "none", "ok", "exc", "user" } /\ reach \in 0..2 
 NothingSwallowed == (pc \in { "unwind", "escape" }) => flight # NoExc
 
 (* the case table *)
-ASSUME EmitTable == Emit => \A k \in Cases : PrintT(ToJson(CaseRow(k)))
+RowText(k) == "case|" \o k.entry \o "|" \o k.defect[1] \o "|" \o k.defect[2] \o "|" \o k.pos \o "|"
+              \o k.rp \o "|" \o ToString(k.nth) \o "|" \o k.slot
+ASSUME EmitTable == Emit => \A k \in Cases : PrintT(RowText(k))
 =============================================================================
